@@ -179,6 +179,12 @@ func (t *Table) addGlobalIndex(gsiInput *types.GlobalSecondaryIndex) error {
 		return err
 	}
 
+	// an index created on a populated table must contain the existing items;
+	// like DynamoDB, items whose index key attributes have the wrong type are skipped
+	for key, item := range t.Data {
+		_ = i.putData(key, item)
+	}
+
 	t.Indexes[*gsiInput.IndexName] = i
 
 	return nil
